@@ -162,6 +162,19 @@ def run(ctx):
     ctx.rule("C09-no-silent-inexact", "exact values become inexact only beside an inexact operand or in a transcendental function")
     TRANS = {"sqrt", "exp", "ln", "log", "sin", "cos", "tan", "asin", "acos", "atan", "atan2"}
     as_real = fb.find("values::Number::as_real")
+    callers9 = fb.callers("lib")
+
+    def part_of_conversion(name, depth=3):
+        # the promotion function, as_real, or a private helper all of whose callers are (the one place a ratio is divided out,
+        # shared by the two): what becomes inexact there is decided where they are decided
+        name = name.split("::{closure")[0]
+        if name in (up.name, as_real.name):
+            return True
+        g_ = fb.by_path(name)
+        if g_ is None or g_.vis == "Public" or depth <= 0:
+            return False
+        cs_ = {c_.split("::{closure")[0] for c_ in callers9.get(name, ())} - {name}
+        return bool(cs_) and all(part_of_conversion(c_, depth - 1) for c_ in cs_)
     for f in fb.all("lib"):
         if f.derived:
             continue
@@ -178,7 +191,7 @@ def run(ctx):
                     if not _in_real_arm(fb, up, b):
                         ctx.undecided("C09-no-silent-inexact", "upcast/exact-arm", "an exact operand is converted to the real type in "
                                    "a promotion arm without an inexact operand", where_of(f, t))
-                elif f.name != as_real.name:
+                elif f.name != as_real.name and not part_of_conversion(f.name):
                     ctx.report("C09-no-silent-inexact", "cast/" + f.name, "%s converts an exact integer to the real type" % f.name, where_of(f, t))
             if c == as_real.name:
                 short = f.name.rsplit("::", 1)[-1]
